@@ -39,6 +39,10 @@ func (c invCand) String() string {
 		return c.P.Comment + " >= " + c.Q.Comment
 	case "leVal":
 		return c.P.Comment + " <= " + pathOf(c.S)
+	case "ltLen":
+		return c.P.Comment + " < len(" + pathOf(c.S) + ")"
+	case "ltVal":
+		return c.P.Comment + " < " + pathOf(c.S)
 	}
 	return "?"
 }
@@ -73,6 +77,10 @@ func (c invCand) goals(p *prover, edge int) []linExpr {
 		return []linExpr{lp.sub(p.lin(val(c.Q)))}
 	case "leVal":
 		return []linExpr{p.lin(sv(c.S)).sub(lp)}
+	case "ltLen":
+		return []linExpr{p.lenOf(sv(c.S)).sub(lp).add(linConst(-1))}
+	case "ltVal":
+		return []linExpr{p.lin(sv(c.S)).sub(lp).add(linConst(-1))}
 	}
 	return nil
 }
@@ -148,6 +156,17 @@ func (e *bndEngine) invariantsOf(fn *ssa.Function) *invSet {
 				bo, ok := in.(*ssa.BinOp)
 				if !ok || !(bo.Op == token.LSS || bo.Op == token.LEQ || bo.Op == token.GTR || bo.Op == token.GEQ) {
 					return
+				}
+				// rotated loops (range over an int / a slice compiled with the test at the bottom): the body is entered
+				// under "0 < X" and repeated under "P+1 < X", so P < X holds in the body
+				if inc := asBinOp(bo.X, token.ADD); inc != nil && inc.X == ssa.Value(p) && bo.Op == token.LSS {
+					if one, isC := constInt(inc.Y); isC && one == 1 {
+						if cl, ok := bo.Y.(*ssa.Call); ok && isCall(cl, "builtin len") {
+							s.cands = append(s.cands, invCand{Kind: "ltLen", P: p, S: cl.Call.Args[0]})
+						} else if _, isPhi := bo.Y.(*ssa.Phi); !isPhi {
+							s.cands = append(s.cands, invCand{Kind: "ltVal", P: p, S: bo.Y})
+						}
+					}
 				}
 				var other ssa.Value
 				if bo.X == ssa.Value(p) && (bo.Op == token.LSS || bo.Op == token.LEQ) {
